@@ -16,8 +16,10 @@
 (*    and an identifier).  The generator never juxtaposes texts on which   *)
 (*    the two editions differ.                                             *)
 (* Kinds use the names of css.TokenType.String().  The function name `url` *)
-(* is recognised in its plain spelling only (escaped spellings are never   *)
-(* generated).  Preprocessing (CR, FF, CRLF to LF) is the class "nl".      *)
+(* is recognised by the VALUE of the name (4.3.4): `u\rl(` opens a url,    *)
+(* `u\\rl(` does not; the value of a hexadecimal escape is not determined  *)
+(* on classes and counts as "not u, r or l" (the harnesses never spell one *)
+(* that way).  Preprocessing (CR, FF, CRLF to LF) is the class "nl".       *)
 (***************************************************************************)
 EXTENDS Integers, Sequences
 
@@ -135,10 +137,19 @@ Url(s, i) ==
             ELSE [k |-> "BadURL", hi |-> Remnants(s, v)]
   ELSE Unquoted(s, w)
 
-\* 4.3.4 consume an ident-like token
+\* the VALUE of the name s[i..e) as far as classes determine it: `\c` stands for c itself; a hexadecimal escape (or a
+\* backslash at the end of input, U+FFFD) is "esc": some code point, which the harnesses never spell as u, r or l
+RECURSIVE NameValue(_, _, _)
+NameValue(s, i, e) ==
+  IF i >= e THEN <<>>
+  ELSE IF s[i] # "bslash" THEN <<s[i]>> \o NameValue(s, i + 1, e)
+  ELSE IF RHex(At(s, i + 1)) \/ At(s, i + 1) = "EOF" THEN <<"esc">> \o NameValue(s, EscEnd(s, i + 1), e)
+  ELSE <<At(s, i + 1)>> \o NameValue(s, i + 2, e)
+
+\* 4.3.4 consume an ident-like token ("if the returned string's value is an ASCII case-insensitive match for url")
 IdentLike(s, i) ==
   LET e == NameEnd(s, i)
-      isUrl == e = i + 3 /\ s[i] = "u" /\ s[i + 1] = "r" /\ s[i + 2] = "l"
+      isUrl == NameValue(s, i, e) = <<"u", "r", "l">>
   IN IF At(s, e) = "lparen"
      THEN IF isUrl THEN Url(s, e + 1) ELSE [k |-> "Function", hi |-> e + 1]
      ELSE [k |-> IF At(s, i) = "dash" /\ At(s, i + 1) = "dash" THEN "CustomPropertyName" ELSE "Ident", hi |-> e]
